@@ -366,8 +366,10 @@ def mon_c05(case, out):
                 reply_tx.setdefault(int(kv.get("mark", k)), []).append(txinfo[k])
             ck = kv.get("cookie", "")
             withck = 0 <= k < len(txinfo) and not txinfo[k]["_tcp"] and txinfo[k].get("ck", "-") != "-"
-            if withck and not forged and ck.startswith("new:") and 16 <= len(ck) - 4 <= 64 and (len(ck) - 4) % 2 == 0:
-                good_marks[int(kv.get("mark", k))] = True
+            # (several replies can carry the same marker: the marker counts as "good" only if every one of them is)
+            isgood = bool(withck and not forged and ck.startswith("new:") and 16 <= len(ck) - 4 <= 64 and (len(ck) - 4) % 2 == 0)
+            mk = int(kv.get("mark", k))
+            good_marks[mk] = good_marks.get(mk, True) and isgood
             # RFC 7873 / ares_cookie_validate: once the server has shown a server cookie, a response to a cookie-bearing
             # UDP request that lacks one is dropped for 120 s (then support is considered withdrawn)
             if withck and nservers == 1 and ck in ("none", "clientonly") and good_at is not None and now - good_at < 120000:
